@@ -18,7 +18,7 @@ for d in sorted(os.listdir(os.path.join(V, 'seeded'))):
         else:
             cell.append('`%s` → %s' % (x['check'].replace('./check ', ''), ', '.join('`%s`' % k for k in x['violation_keys'][:3])))
     if m.get('excluded'):
-        cell = ['*not counted*: outside the documented hand-over protocol (see `meta.json`)']
+        cell = [m['excluded'] if isinstance(m['excluded'], str) and m['excluded'].startswith('*not counted*') else '*not counted*: outside the documented hand-over protocol (see `meta.json`)']
     rows.append('| %s | %s | %s |' % (d, title.replace('|', '\\|'), '; '.join(cell) or 'not run'))
 text = '''## 8. Seeded breaking changes and which checks catch them
 
